@@ -34,6 +34,11 @@ def file_checks():
         p = json.loads(line)
         for f in p["anchors"]["files"]:
             m.setdefault(f, []).append(p["id"])
+    # constants are imported by the drivers: a mutated constant shows in the properties of its users, not of the file it lives in
+    # (BASE_TAG_BIT / MIN_VER_EXTERNAL_ACCESS survived the second sweep only because C05 was not among the checks run for const.py)
+    for extra in ("C05", "C01", "C03", "C13", "C10"):
+        if extra not in m.setdefault("pycomm3/const.py", []):
+            m["pycomm3/const.py"].append(extra)
     return m
 
 
